@@ -1320,11 +1320,12 @@ class EventBus:
         if not parent_event:
             return depth
 
-        # Check if this handler processed the parent event
+        # Check if this handler dispatched this event while processing the parent event
         if handler_id in parent_event.event_results:
             result = parent_event.event_results[handler_id]
-            if result.status in ('pending', 'started', 'completed'):
-                # This handler processed the parent event, increment depth
+            dispatched_by_handler = any(child.event_id == event.event_id for child in result.event_children)
+            if dispatched_by_handler and result.status in ('pending', 'started', 'completed'):
+                # This handler processed the parent event and emitted this event from it, increment depth
                 depth += 1
 
         # Recursively check the parent's ancestry
